@@ -59,6 +59,59 @@ func (H) Generate(r *simrt.Rand, tier string) any {
 	for i := 0; i < r.Intn(9); i++ {
 		s.Init = append(s.Init, r.Intn(s.U))
 	}
+	if r.Intn(8) == 0 {
+		// length and spread are knobs too: a representation in chunks or runs changes
+		// state at 16, 24, 32, 64 elements, and whether a value fits strictly between
+		// two neighbours depends on there being room between them. Dozens to hundreds
+		// of mostly distinct values, and a history in phases - fill, drain from the
+		// front, from the back, from the middle, look around - whose lengths sit on
+		// and next to those sizes.
+		s.U = 50 + r.Intn(950)
+		for i := 0; i < r.Intn(150); i++ {
+			s.Init = append(s.Init, r.Intn(s.U))
+		}
+		for len(s.Ops) < 400 {
+			k := []int{1, 7, 8, 9, 15, 16, 17, 23, 24, 25, 31, 32, 33, 48, 64, 65}[r.Intn(16)]
+			if r.Intn(3) == 0 {
+				k = 1 + r.Intn(40)
+			}
+			mode := r.Intn(7)
+			base := r.Intn(s.U)
+			for j := 0; j < k; j++ {
+				var o Op
+				switch mode {
+				case 0:
+					o = Op{K: "add", V: r.Intn(s.U)}
+				case 1: // an ascending run
+					o = Op{K: "add", V: (base + j) % s.U}
+				case 2:
+					o = Op{K: "removeat", V: 0}
+				case 3:
+					o = Op{K: "removeatrel", V: 1000}
+				case 4:
+					o = Op{K: "removeatrel", V: r.Intn(1001)}
+				case 5:
+					o = Op{K: []string{"remove", "index", "contains"}[r.Intn(3)], V: r.Intn(s.U)}
+				default:
+					o = Op{K: "getrel", V: []int{0, 500, 1000}[r.Intn(3)]}
+				}
+				if s.Ctor == "less-ties" {
+					switch o.K {
+					case "remove":
+						o.K = "removetie"
+					case "index", "contains":
+						o.K = "getrel"
+						o.V = 500
+					}
+				}
+				s.Ops = append(s.Ops, o)
+			}
+			if r.Intn(8) == 0 {
+				break
+			}
+		}
+		return s
+	}
 	n := 1 + r.Intn(30)
 	if r.Intn(5) == 0 {
 		n = 1 + r.Intn(200)
@@ -192,6 +245,7 @@ func runTies(sc *Scenario) (*core.Violation, uint64, int) {
 	for i, o := range sc.Ops {
 		simrt.Yield()
 		h = core.HashInts(h, int(o.K[0])+256*int(o.K[len(o.K)-1]), o.V)
+		o = relative(o, size)
 		switch o.K {
 		case "add":
 			seq++
@@ -269,6 +323,27 @@ func runTies(sc *Scenario) (*core.Violation, uint64, int) {
 	return nil, h, changes
 }
 
+// relative turns a position given in thousandths of the current length (the
+// operations "removeatrel" and "getrel": 0 is the first element, 1000 the last) into
+// an absolute one, so that a history can drain a long slice from the back or the
+// middle without knowing its length in advance.
+func relative(o Op, size int) Op {
+	switch o.K {
+	case "removeatrel":
+		o.K = "removeat"
+	case "getrel":
+		o.K = "get"
+	default:
+		return o
+	}
+	if size > 0 {
+		o.V = o.V * (size - 1) / 1000
+	} else {
+		o.V = 0
+	}
+	return o
+}
+
 func panics(f func()) (p bool) {
 	defer func() {
 		if recover() != nil {
@@ -337,6 +412,7 @@ func run[T interface {
 	for i, o := range sc.Ops {
 		simrt.Yield()
 		h = core.HashInts(h, int(o.K[0])+256*int(o.K[len(o.K)-1]), o.V)
+		o = relative(o, len(model))
 		val := conv(o.V)
 		lb := sort.Search(len(model), func(j int) bool { return !less(model[j], val) })
 		present := lb < len(model) && model[lb] == val
